@@ -6,6 +6,7 @@ import itertools
 
 from sa.analyses.signs import N, P, UNK, Z, Buf, Dq, SignInterp, State, Tup
 from sa.db import AnalysisError, FunctionInfo, dotted, mangle, norm_stmt, own_nodes
+from sa.flow import Interp
 
 CLAIM = {
     "text": "Decides progress of every user-space send loop for every sign pattern of (chunk lengths, bytes accepted) by a finite abstract interpretation of the real loop bodies over the sign domain {0,+} (deque of buffers = list of signs up to length 3, resolved helpers such as adjust_leftover_buffer inlined, send primitives stubbed): from every abstract pre-state that satisfies the loop condition each iteration either leaves the loop or makes progress on the well-founded measure (an element removed, an element replaced by a strict suffix of itself, the sent-counter grown by a positive amount); decides the byte accounting (the loop advances by the count returned by the send primitive of the same iteration, the next offered slice starts at the accumulated count, negative counts raise) and the single hand-off of the producer's generator to exactly one transport call.",
@@ -260,6 +261,61 @@ def check_once(eng, run):
         run.ob("C04.once", fn.module.name.split(".")[-3] + "." + fn.short, ok)
 
 
+class _As:
+    """Report another property's rule functions under this property's rule id (same constructs, shared machinery)."""
+
+    def __init__(self, run, rule):
+        self._run, self._rule = run, rule
+
+    def finding(self, rule, *a, **k):
+        return self._run.finding(self._rule, *a, **k)
+
+    def ob(self, rule, *a, **k):
+        return self._run.ob(self._rule, *a, **k)
+
+    def floor(self, what, measured, minimum):
+        return self._run.floor(f"{self._rule}: {what}", measured, minimum)
+
+    def __getattr__(self, name):
+        return getattr(self._run, name)
+
+
+def check_wait(eng, run):
+    """never blocks for ever / fails within its budget: the selector wait of the retry wrapper, the time budget threading of the
+    blocking send path, and the lock discipline + backlog drain of the async TLS writer (machinery shared with C11 and C08)."""
+    from rules import c08, c11
+    from sa.analyses.budget import Budget
+
+    retry, cap_ok, unbounded = c11.retry_wait_shape(eng)
+    if not cap_ok:
+        run.finding("C04.wait", retry, retry.node, "the selector wait is no longer min(remaining budget, retry interval): send_packet overshoots its time budget")
+    for c, g in unbounded:
+        if not g:
+            run.finding("C04.wait", retry, c, "selector.select() without a timeout is not confined to the arm where the computed wait is infinite: a would-block send whose readiness event "
+                        "never comes (TLS want-read) blocks for ever instead of being retried after retry_interval")
+    run.ob("C04.wait", f"{retry.short}:bounded-select", cap_ok and all(g for _, g in unbounded), unbounded_selects=len(unbounded))
+    n = 0
+    for fn, var in c11.budget_functions(eng):
+        if not (fn.name in ("_retry", "lock_with_timeout") or "send" in fn.name):
+            continue
+        an = Budget(eng, var)
+        Interp(an, fn).run()
+        if not an.blocking_sites:
+            continue
+        n += 1
+        seen = set()
+        for rule, node, msg in an.viol:
+            st = c11._stmt_at(fn, getattr(node, "lineno", fn.lineno))
+            if norm_stmt(st) in seen:
+                continue
+            seen.add(norm_stmt(st))
+            run.finding("C04.wait", fn, st, msg)
+        run.ob("C04.wait", f"{fn.module.name.split('easynetwork.')[1]}:{fn.short}:budget-threaded", not an.viol, budget=var, blocking_sites=len(an.blocking_sites))
+    run.floor("C04.wait send-path functions with a budget and a blocking call", n, 8)
+    c08.check_locks(eng, _As(run, "C04.tls"))
+    c08.check_drain(eng, _As(run, "C04.tls"))
+
+
 def run(eng, run):
     run.not_decided += NOT_DECIDED
     run.assumptions += ["a non-blocking send returns a positive count for a non-empty offer (EAGAIN is raised otherwise and handled by the retry wrapper) and 0 for an all-empty offer",
@@ -267,6 +323,7 @@ def run(eng, run):
     check_prog(eng, run)
     check_acct(eng, run)
     check_once(eng, run)
+    check_wait(eng, run)
 
 
 # ---------------------------------------------------------------------------------------------- self-test corpus
@@ -302,4 +359,34 @@ BENIGN = [
     Variant("sendmsg-filter-none", _SOCK, lambda fn: replace_expr(fn, "filter(len, map(memoryview, iterable_of_data))", "filter(None, map(memoryview, iterable_of_data))"), why="filter(None, ...) drops empty views as well"),
     Variant("send-all-rename-counter", _ABC, lambda fn: rename_local(fn, "total_sent", "offset"), why="local renamed"),
     Variant("adjust-rename", _ADJ, lambda fn: rename_local(fn, "b_len", "size"), why="local renamed"),
+]
+
+_RETRY = "lowlevel.api_sync.transports.base_selector:SelectorBaseTransport._retry"
+_LWT = "lowlevel._utils:lock_with_timeout"
+_TLSR = "lowlevel.api_async.transports.tls:AsyncTLSStreamTransport._retry_ssl_method"
+_TLSF = "lowlevel.api_async.transports.tls:AsyncTLSStreamTransport.__flush_data_to_send"
+
+
+def _nest_tls_locks(fn):
+    from sa.mutate import find_handler
+    h = find_handler(fn, "_ssl_module.SSLWantReadError")
+    inner = next(t for t in h.body if isinstance(t, ast.Try))
+    first, second = inner.body
+    first.body.append(second)
+    inner.body = [first]
+
+
+MUTANTS += [
+    Variant("retry-unbounded-select-on-infinite-budget", _RETRY, lambda fn: replace_expr(fn, "wait_time == math.inf", "timeout == math.inf"), "C04.wait",
+            why="timeout=None with a finite retry interval: select() never wakes up to retry a TLS want-read write (seed C04-4)"),
+    Variant("lock-wait-not-charged-to-the-send-budget", _LWT, lambda fn: delete_stmt(fn, stmt_is("timeout = elapsed.recompute_timeout(timeout)")), "C04.wait",
+            why="a contended send_packet(timeout=T) fails after lock wait + T (seed C04-5)"),
+    Variant("tls-read-under-send-lock", _TLSR, _nest_tls_locks, "C04.tls", why="a task parked in recv blocks every sender for ever (seed C04-6)"),
+    Variant("tls-flush-skipped-when-busy", _TLSF, lambda fn: insert_before(fn, stmt_has("try:"), "if self.__transport_send_lock.locked():\n    return"), "C04.tls",
+            why="send_all returns with un-encrypted bytes still queued"),
+]
+BENIGN += [
+    Variant("retry-wait-is-min", _RETRY, lambda fn: replace_stmt(fn, stmt_has("if timeout <= retry_interval:"),
+                                                                "is_retry_interval = not (timeout <= retry_interval)\nwait_time = min(timeout, retry_interval)"),
+            why="same wait computed with min()"),
 ]
